@@ -158,6 +158,81 @@ func runC01(r *rt.Runner) {
 		}
 	}
 
+	// ---- (1b) CMap operators with well-formed blocks in which exactly one
+	// operand is hostile (the blocks pass the count and stack-depth checks, so
+	// the per-operand code - including every error message - is reached)
+	cyc := append(append([]string(nil), full...),
+		"{ 0 } dup dup 0 exch put", "2 array dup dup 0 exch put dup dup 1 exch put",
+		"1 array 1 array 2 copy 0 exch put 2 copy exch 0 exch put pop",
+		"[ 1 ] 50 { dup [ 3 1 roll ] } repeat", "{ 1 } 50 { [ 0 0 ] cvx dup 0 3 index put dup 1 3 index put exch pop } repeat",
+		"5 dict dup dup /a exch put [ exch ]", "(\\000\\377)", "<>", "<0000000000000000000000>", "/", "[ <41> <42> ]", "[ /a /b ]", "[ [ ] ]", "null")
+	type cmOp struct {
+		name  string
+		entry []string // a well-formed entry
+	}
+	cmOps := []cmOp{
+		{"codespacerange", []string{"<00>", "<ff>"}}, {"cidchar", []string{"<41>", "7"}}, {"cidrange", []string{"<41>", "<43>", "7"}},
+		{"bfchar", []string{"<41>", "<0041>"}}, {"bfrange", []string{"<41>", "<43>", "<0041>"}}, {"bfrange", []string{"<41>", "<43>", "[ <0041> <0042> <0043> ]"}},
+		{"notdefchar", []string{"<41>", "7"}}, {"notdefrange", []string{"<41>", "<43>", "7"}},
+	}
+	for _, op := range cmOps {
+		for pos := range op.entry {
+			for _, h := range cyc {
+				for _, nEnt := range []int{1, 2} {
+					op, pos, h, nEnt := op, pos, h, nEnt
+					r.Case("cmap-operand/"+op.name, func(c *rt.C) {
+						var sb strings.Builder
+						sb.WriteString("/CIDInit /ProcSet findresource begin\n12 dict begin\nbegincmap\n/CMapName /Evil def\n1 begincodespacerange <00> <ff> endcodespacerange\n")
+						fmt.Fprintf(&sb, "%d begin%s\n", nEnt, op.name)
+						hostileAt := c.Rand().IntN(nEnt)
+						for e := 0; e < nEnt; e++ {
+							for i, a := range op.entry {
+								if e == hostileAt && i == pos {
+									a = h
+								}
+								sb.WriteString(a + " ")
+							}
+							sb.WriteString("\n")
+						}
+						fmt.Fprintf(&sb, "end%s\nendcmap\nCMapName currentdict /CMap defineresource pop\nend end\n", op.name)
+						text := sb.String()
+						c.SetDetail(func() string { return "program: " + text })
+						feed(kCMap, []byte(text))
+						feed(kPS, []byte(text))
+						c.Count("CMap blocks with one hostile operand")
+						c.Nontrivial([]byte("cmo|"+text), func() string { return text })
+					})
+				}
+			}
+		}
+	}
+	// ---- (1c) what the readers do after the interpreter has finished: hostile
+	// objects in the places the post-processing looks at
+	var post []string
+	for _, h := range cyc {
+		post = append(post,
+			"FontDirectory /F "+h+" put", "/F "+h+" /Font defineresource pop", "/F "+h+" /CMap defineresource pop", "/F "+h+" /CIDFont defineresource pop",
+			"/F "+h+" definefont pop", h+" /F exch definefont pop", h+" "+h+" /Font defineresource",
+			"/F << /FontType 1 /FontName /F /FontInfo "+h+" /Private "+h+" /CharStrings "+h+" /Encoding "+h+" /FontMatrix "+h+" >> definefont pop",
+			"/F << /FontType "+h+" >> definefont pop", "/F << /FontType 1 /Private << /Subrs "+h+" /lenIV "+h+" /BlueValues "+h+" >> /CharStrings << /a "+h+" >> /Encoding [ "+h+" ] /FontMatrix [ "+h+" ] /FontInfo << /version "+h+" /Notice "+h+" >> >> definefont pop",
+			"/CIDInit /ProcSet findresource begin 12 dict begin begincmap /CMapName "+h+" def /CIDSystemInfo "+h+" def /WMode "+h+" def /CMapType "+h+" def endcmap /N currentdict /CMap defineresource pop end end",
+			"/CIDInit /ProcSet findresource begin 12 dict begin begincmap "+h+" usecmap endcmap /N currentdict /CMap defineresource pop end end",
+			"/N << /CMapName "+h+" /CodeMap "+h+" /CodeSpaceRanges "+h+" >> /CMap defineresource pop")
+	}
+	for _, text := range post {
+		text := text
+		r.Case("post-processing", func(c *rt.C) {
+			c.SetDetail(func() string { return "program after a %! line: " + text })
+			for _, hd := range []string{"%!\n", "%!PS-AdobeFont-1.0: F 1.0\n"} {
+				feed(kType1, []byte(hd+text+"\n"))
+			}
+			feed(kCMap, []byte(text))
+			feed(kPS, []byte(text))
+			c.Count("programs aimed at the readers' post-processing")
+			c.Nontrivial([]byte("post|"+text), func() string { return text })
+		})
+	}
+
 	// ---- (2) recursion and runaway programs through every program-reading entry point
 	shapes := make([]string, 0, len(c11Shapes)+20)
 	for _, s := range c11Shapes {
@@ -178,7 +253,7 @@ func runC01(r *rt.Runner) {
 		"/CIDInit /ProcSet findresource begin endcmap endcidrange endbfchar usecmap",
 		// bind over procedures that share sub-procedures (a DAG with 2^N paths)
 		"{1} 40 { [0 0] cvx dup 0 3 index put dup 1 3 index put exch pop } repeat bind",
-		"{ add } 64 { dup 2 array astore cvx } repeat pop {1} 30 { dup [ exch dup ] cvx exch pop } repeat bind",
+		"{ add } 64 { dup [ 3 1 roll ] cvx } repeat pop {1} 30 { dup [ exch dup ] cvx exch pop } repeat bind",
 		"/p {1} def 50 { /p [ /p load dup ] cvx def } repeat /p load bind pop",
 		// error handlers that manipulate the operand stack while a procedure body is open
 		"errordict /syntaxerror { pop pop pop } put 7 8 9 { 1 2 > 3 }",
